@@ -10,6 +10,7 @@ import (
 	"github.com/pingcap/kvproto/pkg/keyspacepb"
 	"github.com/pingcap/kvproto/pkg/kvrpcpb"
 	"github.com/pingcap/kvproto/pkg/metapb"
+	"github.com/pingcap/kvproto/pkg/mpp"
 	"github.com/pkg/errors"
 	"github.com/tikv/client-go/v2/internal/logutil"
 	"github.com/tikv/client-go/v2/tikvrpc"
@@ -693,8 +694,25 @@ func (c *codecV2) DecodeResponse(req *tikvrpc.Request, resp *tikvrpc.Response) (
 		if err != nil {
 			return nil, err
 		}
-	case tikvrpc.CmdBatchCop, tikvrpc.CmdMPPTask:
-		// There aren't range infos in BatchCop and MPPTask responses.
+	case tikvrpc.CmdMPPTask:
+		// The retry regions normally carry ids and epochs only. Decode the bounds when they are present and
+		// drop the regions outside the keyspace, as decodeRegionError does for EpochNotMatch.
+		if r, ok := resp.Resp.(*mpp.DispatchTaskResponse); ok {
+			kept := r.RetryRegions[:0]
+			for _, region := range r.RetryRegions {
+				region.StartKey, region.EndKey, err = c.DecodeRegionRange(region.StartKey, region.EndKey)
+				if err != nil {
+					if errors.Is(err, errKeyOutOfBound) {
+						continue
+					}
+					return nil, err
+				}
+				kept = append(kept, region)
+			}
+			r.RetryRegions = kept
+		}
+	case tikvrpc.CmdBatchCop:
+		// BatchCop responses are streamed and carry no range infos.
 	case tikvrpc.CmdMvccGetByKey:
 		r := resp.Resp.(*kvrpcpb.MvccGetByKeyResponse)
 		r.RegionError, err = c.decodeRegionError(r.RegionError)
